@@ -240,6 +240,28 @@ Section Hier.
     | Lit _ _ | Fn _ _ _ | TFn _ _ _ | Prod _ _ => Some false               (* type.__subclasscheck__: not in a's MRO *)
     end.
 
+  (* DependentType.__type_order__ *)
+  Definition dep_order (tord : ty -> ty -> option order) (subck : ty -> ty -> option bool)
+             (t o : ty) : option (option order) :=
+    let b := dep_bound t in
+    if is_dep o then
+      match tord b (dep_bound o) with
+      | None => None
+      | Some SAME => Some (Some (if dep_lt t o then LESS else if dep_lt o t then MORE else NONE))
+      | Some r => Some (Some r)
+      end
+    else
+      match subck o b with
+      | None => None
+      | Some true => Some (Some LESS)
+      | Some false =>
+          match subck b o with
+          | None => None
+          | Some true => Some (Some LESS)
+          | Some false => Some (Some NONE)
+          end
+      end.
+
   (* t.__type_order__(o): Some None = no hook or NotImplemented *)
   Definition hook_order (tord : ty -> ty -> option order) (subck : ty -> ty -> option bool)
              (t o : ty) : option (option order) :=
@@ -266,32 +288,15 @@ Section Hier.
         end
     | Exa _ c => if ty_eqb o (Cls c) then Some (Some LESS) else omap Some (tord (Cls c) o)
     | Strict _ _ | HasM _ _ | Chk _ _ => Some None
-    | Lit _ b | Fn _ _ b | TFn _ _ b =>
-        if is_dep o then
-          match tord b (dep_bound o) with
-          | None => None
-          | Some SAME => Some (Some (if dep_lt t o then LESS else if dep_lt o t then MORE else NONE))
-          | Some r => Some (Some r)
-          end
-        else
-          match subck o b with
-          | None => None
-          | Some true => Some (Some LESS)
-          | Some false =>
-              match subck b o with
-              | None => None
-              | Some true => Some (Some LESS)
-              | Some false => Some (Some NONE)
-              end
-          end
     | Prod ps _ =>
         match o with
         | Prod qs _ =>
             if Nat.eqb (length ps) (length qs)
             then omap (fun rs => Some (merge rs)) (omapM2 tord ps qs)
             else Some (Some NONE)
-        | _ => Some None
+        | _ => dep_order tord subck t o        (* super().__type_order__(other): since the repair of KF-24 *)
         end
+    | Lit _ _ | Fn _ _ _ | TFn _ _ _ => dep_order tord subck t o
     | Cls _ | Gen _ _ => Some None
     end.
 
